@@ -129,12 +129,25 @@ def main():
         props = a[a.index("--props") + 1].split(",") if "--props" in a else None
         jobs = int(a[a.index("-j") + 1]) if "-j" in a else 3
         ids = sorted(os.listdir(SEEDED)) if os.path.isdir(SEEDED) else []
-        ids = [i for i in ids if not filt or filt in i]
+        ids = [i for i in ids if (not filt or filt in i) and os.path.isdir(os.path.join(SEEDED, i))]
         from concurrent.futures import ThreadPoolExecutor
+        rows = []
         with ThreadPoolExecutor(jobs) as ex:
             for sid, res in zip(ids, ex.map(lambda s: run_one(s, tier, props), ids)):
                 for p, r in res.items():
                     print("%-8s %-4s %s" % (sid, p, r), flush=True)
+                    rows.append((sid, p, r))
+        if "--write" in a:
+            with open(os.path.join(SEEDED, "RESULTS.md"), "w") as f:
+                f.write("# Seeded changes: result of `tools/seeded.py run --tier %s --write`\n\n" % tier)
+                f.write("Each change was produced by an independent sub-agent from the property text only, confirmed by\n"
+                        "`tools/seeded.py ingest` (see meta.json), applied to a scratch copy of /repo and checked with `./check <property> %s`.\n\n" % tier)
+                f.write("| id | property | what it needs to manifest | verdict | first line of the violation |\n|---|---|---|---|---|\n")
+                for sid, p, r in rows:
+                    meta = json.load(open(os.path.join(SEEDED, sid, "meta.json")))
+                    verdict = r.split()[0]
+                    detail = " ".join(r.split()[2:])[:140].replace("|", "/")
+                    f.write("| %s | %s | %s | %s | %s |\n" % (sid, p, meta.get("needs", "")[:200].replace("|", "/").replace("\n", " "), verdict, detail))
         return 0
     print(__doc__)
     return 2
